@@ -180,3 +180,21 @@ Example C09_hw_tree_nonvacuous :
     end) [ex_star ID; ex_tree ID; ex_star SRC; ex_tree SRC]) [sp_reference; sp_nx] = true /\
   match tree_conditions sp_nx (ex_mesh ID) with Ok [false] => true | _ => false end = true.
 Proof. vm_compute. auto. Qed.
+
+(* Part 8: the tree theorems with the hypotheses that are left (TransitProofs.v).  ID: a tree certificate, links that
+   join routers and interfaces, port counts within the index field, interfaces injecting into routers.  SRC: a tree
+   certificate and links that join routers and interfaces -- nothing else. *)
+From FV Require Import TransitProofs.
+Theorem C09_model_tree_nx_min :
+  forall (d : desc) (g : graph) (c : compiled) (ri : rinfo) (n : netlist) (dp : list (string * Z)),
+    build d = Ok g -> compile d g = Ok c -> gen_routing_info sp_nx c = Ok ri -> emit c ri = Ok n -> d_algo d = ID ->
+    links_typedb g c = true -> degrees_fitb c = true -> attachedb c Req = true -> attachedb c Rsp = true ->
+    tree_certb g dp = true -> C09_on n.
+Proof. exact model_tree_C09_nx_min. Qed.
+Print Assumptions C09_model_tree_nx_min.
+Theorem C09_model_tree_src_nx_min :
+  forall (d : desc) (g : graph) (c : compiled) (ri : rinfo) (n : netlist) (dp : list (string * Z)),
+    build d = Ok g -> compile d g = Ok c -> gen_routing_info sp_nx c = Ok ri -> emit c ri = Ok n -> d_algo d = SRC ->
+    links_typedb g c = true -> tree_certb g dp = true -> C09_on n.
+Proof. exact model_tree_C09_src_nx_min. Qed.
+Print Assumptions C09_model_tree_src_nx_min.
